@@ -40,14 +40,42 @@ func VerifC18Scenarios() {
 			})
 			w.c.Query(func(txn *Txn) error { return txn.With("a").Range(func(idx uint32) {}) })
 		})
-	case 1: // inserts and deletes on two goroutines
+	case 1: // inserts and deletes on two goroutines (C11: offsets never collide, Count adds up)
+		var offs [2]uint32
 		for i := 0; i < 2; i++ {
+			i := i
 			spawn(func() {
-				off, err := w.c.Insert(func(r Row) error { r.SetInt64("a", 5); return nil })
-				vndAssert(err == nil, "insert failed")
-				w.c.DeleteAt(off)
+				w.c.Query(func(txn *Txn) error {
+					off, err := txn.Insert(func(r Row) error {
+						vndYield() // another insert may run while this one is in flight
+						r.SetInt64("a", int64(5+i))
+						return nil
+					})
+					vndAssert(err == nil, "insert failed")
+					offs[i] = off
+					return nil
+				})
 			})
 		}
+		vndJoin(t[0])
+		vndJoin(t[1])
+		n = 0
+		vndAssert(offs[0] != offs[1], "two concurrent inserts received the same offset")
+		for i := 0; i < 2; i++ {
+			i := i
+			w.c.QueryAt(offs[i], func(r Row) error {
+				v, ok := r.Int64("a")
+				vndAssert(ok && v == int64(5+i), "a concurrent insert overwrote another")
+				return nil
+			})
+		}
+		vndAssert(w.c.Count() == w.count+2, "Count after two concurrent inserts")
+		spawn(func() { w.c.DeleteAt(offs[0]) })
+		spawn(func() { w.c.DeleteAt(offs[1]) })
+		vndJoin(t[0])
+		vndJoin(t[1])
+		n = 0
+		vndAssert(w.c.Count() == w.count, "Count after the rows were deleted again")
 	case 2: // CreateIndex beside a writer
 		spawn(func() {
 			w.c.CreateIndex("idx", "a", func(r Reader) bool { return r.Int() > 0 })
